@@ -230,8 +230,10 @@ func VerifEval(pos *Position) (full, materialSquares int) {
 
 func VerifIsCheckMate(pos *Position) bool { return isCheckMate(pos) }
 
-// Low-level attack query on an arbitrary board: one attacker of the given piece byte on 'from' (plus optional blocker).
-func VerifSingleAttack(attacker byte, from, to byte, blocker int) bool {
+// Low-level attack query on an otherwise empty board: one attacker of the given piece byte on 'from', an optional
+// blocker (a white knight, -1 for none) and, unless the attacker is a king itself, a king of the attacker's colour parked
+// on kingSq (isUnderCheck picks the pawn-attack flag from the colour of the piece on the attackers' king square).
+func VerifSingleAttackAt(attacker, from, to byte, blocker, kingSq int) bool {
 	var pos Position
 	pos.enPassSquare = InvalidSquare
 	pos.board[from] = piece(attacker)
@@ -241,9 +243,7 @@ func VerifSingleAttack(attacker byte, from, to byte, blocker int) bool {
 	var pieces pieceList
 	var pawns pawnList
 	kind := piece(attacker) & ColorlessPiece
-	white := piece(attacker)&WhitePieceBit != 0
-	// isUnderCheck picks the pawn-attack flag from the colour of the piece on the attackers' king square, so a king of
-	// the attacker's colour is parked on a square from where it neither attacks 'to' nor blocks the line
+	king := square(from)
 	switch kind {
 	case Pawn:
 		pawns.appendPawn(square(from))
@@ -251,68 +251,11 @@ func VerifSingleAttack(attacker byte, from, to byte, blocker int) bool {
 	default:
 		pieces.appendPiece(square(from))
 	}
-	kingSq := verifSpareSquare(from, to, blocker)
-	if kind == King {
-		kingSq = square(from)
-	} else {
-		if white {
-			pos.board[kingSq] = WKing
-		} else {
-			pos.board[kingSq] = BKing
-		}
-		// a parked king must not itself attack the target: verifSpareSquare keeps distance >= 2
+	if kind != King {
+		king = square(kingSq)
+		pos.board[king] = King | piece(attacker)&(WhitePieceBit|BlackPieceBit)
 	}
-	return pos.isUnderCheck(pieces, pawns, kingSq, square(to))
-}
-
-// a valid square at king-distance >= 2 from 'to' and different from the given squares, not between from and to
-func verifSpareSquare(from, to byte, blocker int) square {
-	for i := 0; i < 64; i++ {
-		sq := byte((i>>3)<<4 | i&7)
-		if sq == from || sq == to || int(sq) == blocker {
-			continue
-		}
-		df := int(sq&15) - int(to&15)
-		dr := int(sq>>4) - int(to>>4)
-		if df < 0 {
-			df = -df
-		}
-		if dr < 0 {
-			dr = -dr
-		}
-		if df < 2 && dr < 2 {
-			continue
-		}
-		// not on the segment between from and to (would act as a blocker for sliders)
-		if verifBetween(from, to, sq) {
-			continue
-		}
-		return square(sq)
-	}
-	return InvalidSquare
-}
-
-func verifBetween(from, to, x byte) bool {
-	ff, fr, tf, tr, xf, xr := int(from&15), int(from>>4), int(to&15), int(to>>4), int(x&15), int(x>>4)
-	df, dr := tf-ff, tr-fr
-	if !(df == 0 || dr == 0 || df == dr || df == -dr) {
-		return false
-	}
-	sg := func(v int) int {
-		if v > 0 {
-			return 1
-		} else if v < 0 {
-			return -1
-		}
-		return 0
-	}
-	sf, sr := sg(df), sg(dr)
-	for f, r := ff+sf, fr+sr; f != tf || r != tr; f, r = f+sf, r+sr {
-		if f == xf && r == xr {
-			return true
-		}
-	}
-	return false
+	return pos.isUnderCheck(pieces, pawns, king, square(to))
 }
 
 // ---- moves ----
